@@ -13,7 +13,7 @@ import (
 	"verif/internal/core"
 )
 
-func init() { Registry["C12"] = checkC12 }
+func init() { Registry["C12"] = withErrRules(checkC12, "envelope", "protocol/binary", "protocol", "envelope", "internal/envelope", "internal/multiplex") }
 
 var (
 	reFirstRead = regexp.MustCompile(`\(io\.Reader(At)?\)\.Read(At)?\(alloc:\w+\[c:0:c:2\](,c:0)?\)#0`)
